@@ -599,7 +599,7 @@ package mpb
 
 //@ func (*bState).draw
 //@   props    C07 C04
-//@   requires s != nil && s.filler != nil
+//@   requires s != nil && okfiller(s.filler)
 //@   requires s.buffers[0] != nil && s.buffers[1] != nil && s.buffers[2] != nil
 //@   requires s.buffers[0] != s.buffers[1] && s.buffers[0] != s.buffers[2] && s.buffers[1] != s.buffers[2]
 //@   requires drained: dw(written(s.buffers[0])) == 0 && dw(written(s.buffers[1])) == 0 && dw(written(s.buffers[2])) == 0
@@ -641,9 +641,10 @@ package mpb
 // assumed here (it follows from "one decorator instance per bar" and WC.Init; the matrices are
 // rebuilt in heapManager.run from (*bState).wSyncTable).
 //@ func syncWidth
-//@   props    C12 C02
+//@   props    C12 C02 C03
 //@   assumes  forall(k, MinInt64, MaxInt64 + 1, has(matrix, k) ==> forall(i, 0, len(matrix[k]), matrix[k][i] != nil && pos(matrix[k][i]) == i))
 //@   modifies spawned("maxWidthDistributor")
+//@   loop 1   ensures each: spawned("maxWidthDistributor") == iter(spawned("maxWidthDistributor")) + 1 // every column, however short, gets its distributor: a lone decorator still waits for an answer
 //@   ensures  spawned("maxWidthDistributor") >= old(spawned("maxWidthDistributor"))
 
 // ---------------------------------------------------------------------------------------
@@ -901,12 +902,14 @@ package mpb
 
 // the two writer options replace a nil writer by io.Discard before making the closure
 //@ func WithOutput$1
-//@   props    C02 C15 C04
+//@   props    C02 C15 C04 C03 C13
 //@   requires w != nil
+//@   modifies s.output
 //@   ensures  set: s.output == w
 //@ func WithDebugOutput$1
 //@   props    C02 C15
 //@   requires w != nil
+//@   modifies s.debugOut
 //@   ensures  set: s.debugOut == w
 //@ func WithOutput
 //@   props    C02 C15 C04
@@ -920,6 +923,7 @@ package mpb
 //@ func WithRenderDelay$1
 //@   props    C02 C04
 //@   requires isext(ch)
+//@   modifies s.delayRC
 //@   ensures  set: s.delayRC == ch
 //@ func WithRenderDelay
 //@   props    C02 C04
@@ -1108,20 +1112,35 @@ package mpb
 //@   props    C09 C02 C17 C05
 //@   params   s
 //@   requires s != nil && forall(i, 0, len(s.decorGroups[0]), s.decorGroups[0][i] != nil) && forall(i, 0, len(s.decorGroups[1]), s.decorGroups[1][i] != nil)
-//@   requires s.filler != nil && s.extender != nil
+//@   requires okfiller(s.filler) && s.extender != nil
 //@   ensures  forall(i, 0, len(s.decorGroups[0]), s.decorGroups[0][i] != nil) && forall(i, 0, len(s.decorGroups[1]), s.decorGroups[1][i] != nil)
-//@   ensures  s.filler != nil && s.extender != nil
+//@   ensures  okfiller(s.filler) && s.extender != nil
 //@   modifies bState.decorGroups, bState.id, bState.reqWidth, bState.waitBar, bState.rmOnComplete, bState.filler, bState.priority, bState.extender, bState.trimSpace, bState.noPop
 
 //@ functype BarFillerMiddleware$1.middle
+//@   params   base
+//@   requires okfiller(base)
 //@   modifies nothing
-//@   ensures  result != nil
+//@   ensures  okfiller(result)
+
+// the two built-in middlewares: on the terminal state the message replaces the filler
+// (nothing else is drawn), otherwise the wrapped filler draws
+//@ func BarFillerOnComplete$1
+//@   props    C02 C03 C07
+//@   requires okfiller(base)
+//@   modifies nothing
+//@   ensures  okfiller(result)
+//@ func BarFillerOnAbort$1
+//@   props    C02 C03 C07
+//@   requires okfiller(base)
+//@   modifies nothing
+//@   ensures  okfiller(result)
 
 //@ func (pState).makeBarState
 //@   props    C09 C06 C19 C02 C17 C05 C07 C20
-//@   requires filler != nil
+//@   requires okfiller(filler)
 //@   loop 1   invariant bs != nil && fresh(bs) && bs.total == total && bs.current == 0 && bs.refill == 0 && bs.triggerComplete == (total > 0) && !bs.aborted && bs.shutdown == 0
-//@   loop 1   invariant bs.renderReq == s.renderReq && bs.autoRefresh == s.autoRefresh && bs.filler != nil && bs.extender != nil
+//@   loop 1   invariant bs.renderReq == s.renderReq && bs.autoRefresh == s.autoRefresh && okfiller(bs.filler) && bs.extender != nil
 //@   loop 1   invariant forall(i, 0, len(bs.decorGroups[0]), bs.decorGroups[0][i] != nil) && forall(i, 0, len(bs.decorGroups[1]), bs.decorGroups[1][i] != nil)
 //@   loop 2   invariant forall(i, 0, len(bs.decorGroups[0]), bs.decorGroups[0][i] != nil) && forall(i, 0, len(bs.decorGroups[1]), bs.decorGroups[1][i] != nil)
 //@   loop 3   invariant forall(i, 0, len(group), group[i] != nil)
@@ -1152,7 +1171,7 @@ package mpb
 
 //@ func (*Progress).Add$1
 //@   props    C05 C17 C06 C02 C18
-//@   requires ps != nil && p != nil && filler != nil && ch != nil && !closed(ch) && !closed(ps.hm) && ps.idCount < 1<<62
+//@   requires ps != nil && p != nil && okfiller(filler) && ch != nil && !closed(ch) && !closed(ps.hm) && ps.idCount < 1<<62
 //@   requires parked: forall(k, has(ps.queueBars, k) ==> ps.queueBars[k] != nil)
 //@   loop 1   invariant key != nil && bar != nil && fresh(bar) && bs != nil && fresh(bs) && bs.waitBar != nil && !bs.waitBar.retired
 //@   loop 1   invariant mapdom(ps.queueBars) == old(mapdom(ps.queueBars)) && mapval(ps.queueBars) == old(mapval(ps.queueBars))
@@ -1208,9 +1227,13 @@ package mpb
 //@   ensures  result.Completed == s.completed() && result.Aborted == s.aborted
 //@   ensures  exclusive: !(result.Completed && result.Aborted)
 
+// a usable filler: not nil, and not a nil function wrapped as a BarFillerFunc (which Progress.Add
+// and BarExtender both refuse)
+//@ spec okfiller(f) = f != nil && !(hasType(f, "BarFillerFunc") && unboxAs(f, "BarFillerFunc") == nil)
+
 //@ iface BarFiller.Fill
 //@   params   w stat
-//@   requires self != nil && w != nil
+//@   requires okfiller(self) && w != nil
 //@   requires 0 <= stat.AvailableWidth && stat.AvailableWidth <= 1<<31 && stat.RequestedWidth <= 1<<31
 //@   modifies written(w), bFiller.tip, sFiller.count
 //@   ensures  fits@!C08: dw(written(w)) - old(dw(written(w))) <= max(0, stat.AvailableWidth) && dw(written(w)) >= old(dw(written(w)))
@@ -1219,7 +1242,7 @@ package mpb
 // waiting); a terminal bar stamps the frame with its count of terminal frames so far and
 // then counts this one (post-increment: the first terminal frame carries 0, the second 1, ...)
 // Struct invariant of a bar state (established by makeBarState; options count as construction)
-//@ typeinv bState props C02 C03 C07 self.filler != nil && self.extender != nil && self.buffers[0] != nil && self.buffers[1] != nil && self.buffers[2] != nil
+//@ typeinv bState props C02 C03 C07 okfiller(self.filler) && self.extender != nil && self.buffers[0] != nil && self.buffers[1] != nil && self.buffers[2] != nil
 //@ typeinv bState props C02 C03 C07 self.buffers[0] != self.buffers[1] && self.buffers[0] != self.buffers[2] && self.buffers[1] != self.buffers[2]
 //@ typeinv bState props C02 C03 C07 forall(i, 0, len(self.decorGroups[0]), self.decorGroups[0][i] != nil) && forall(i, 0, len(self.decorGroups[1]), self.decorGroups[1][i] != nil)
 
@@ -1388,7 +1411,9 @@ package mpb
 //@   props    C02 C09
 //@   requires s != nil && middle != nil
 //@   modifies s.filler
-//@   ensures  s.filler != nil
+//@   ensures  okfiller(s.filler)
+//@ func BarExtender
+//@   props    C02 C15 C04
 //@ func BarExtender$1
 //@   props    C02 C09
 //@   requires s != nil && fn != nil
@@ -1396,7 +1421,7 @@ package mpb
 //@   ensures  s.extender != nil
 //@ func makeExtenderFunc
 //@   props    C02 C15
-//@   requires filler != nil
+//@   requires okfiller(filler)
 //@   ensures  result != nil
 
 // C10: the state published through Bar.bs (stored once, just before bsOk is closed) is read
@@ -1589,7 +1614,7 @@ package mpb
 
 //@ iface BarFillerBuilder.Build
 //@   modifies nothing
-//@   ensures  result != nil
+//@   ensures  okfiller(result)
 
 //@ func NopStyle
 //@   props    C02
@@ -1606,6 +1631,14 @@ package mpb
 //@   ensures  immediate: called("(*Progress).UpdateBarPriority") == old(called("(*Progress).UpdateBarPriority")) + 1 && calledWith("(*Progress).UpdateBarPriority", 0) == b.container
 //@              && calledWith("(*Progress).UpdateBarPriority", 1) == b && calledWith("(*Progress).UpdateBarPriority", 2) == priority && calledWith("(*Progress).UpdateBarPriority", 3) == false
 
+// the callback is the caller's and must be a function (it is called on the bar goroutine)
+//@ func (*Bar).DecoratorAverageAdjust
+//@   props    C02
+//@   requires b != nil
+//@ func (*Bar).TraverseDecorators
+//@   props    C02 C10
+//@   requires b != nil && cb != nil
+//@   ensures  atomic: sent(b.operateState) <= old(sent(b.operateState)) + 1
 //@ func (*Bar).TraverseDecorators$1
 //@   props    C02
 //@   requires s != nil && cb != nil
@@ -1645,12 +1678,20 @@ package mpb
 //@   modifies pkgstate("decor"), content(), written(), bFiller.tip, sFiller.count, sent("chan int"), recvd("chan int")
 
 //@ func BarFillerOnComplete$1$1
-//@   props    C02 C03
-//@   requires w != nil && base != nil && st.AvailableWidth >= 0 && st.AvailableWidth <= 1<<31 && st.RequestedWidth <= 1<<31
+//@   props    C02 C03 C07 C04
+//@   requires w != nil && okfiller(base) && st.AvailableWidth >= 0 && st.AvailableWidth <= 1<<31 && st.RequestedWidth <= 1<<31
+//@   ensures  message: st.Completed ==> called("io.WriteString") == old(called("io.WriteString")) + 1 && calledWith("io.WriteString", 0) == w && calledWith("io.WriteString", 1) == message
+//@              && called("mpb.BarFiller.Fill") == old(called("mpb.BarFiller.Fill")) && result == returned("io.WriteString", 1)
+//@   ensures  passthrough: !st.Completed ==> called("mpb.BarFiller.Fill") == old(called("mpb.BarFiller.Fill")) + 1 && calledWith("mpb.BarFiller.Fill", 0) == base && calledWith("mpb.BarFiller.Fill", 1) == w
+//@              && calledWith("mpb.BarFiller.Fill", 2) == st && result == returned("mpb.BarFiller.Fill", 0) && called("io.WriteString") == old(called("io.WriteString"))
 
 //@ func BarFillerOnAbort$1$1
-//@   props    C02 C03
-//@   requires w != nil && base != nil && st.AvailableWidth >= 0 && st.AvailableWidth <= 1<<31 && st.RequestedWidth <= 1<<31
+//@   props    C02 C03 C07 C04
+//@   requires w != nil && okfiller(base) && st.AvailableWidth >= 0 && st.AvailableWidth <= 1<<31 && st.RequestedWidth <= 1<<31
+//@   ensures  message: st.Aborted ==> called("io.WriteString") == old(called("io.WriteString")) + 1 && calledWith("io.WriteString", 0) == w && calledWith("io.WriteString", 1) == message
+//@              && called("mpb.BarFiller.Fill") == old(called("mpb.BarFiller.Fill")) && result == returned("io.WriteString", 1)
+//@   ensures  passthrough: !st.Aborted ==> called("mpb.BarFiller.Fill") == old(called("mpb.BarFiller.Fill")) + 1 && calledWith("mpb.BarFiller.Fill", 0) == base && calledWith("mpb.BarFiller.Fill", 1) == w
+//@              && calledWith("mpb.BarFiller.Fill", 2) == st && result == returned("mpb.BarFiller.Fill", 0) && called("io.WriteString") == old(called("io.WriteString"))
 
 // extender closures (C15): on a filler error the buffer is reset and the rows are returned
 // with the error; otherwise the buffer ends empty
@@ -1660,7 +1701,7 @@ package mpb
 //@   props    C15 C02 C04 C13
 //@   loop 1   invariant len(rows) >= len(in(rows)) && forall(k, len(in(rows)), len(rows), rows[k] != buf && len(content(rows[k])) >= 1)
 //@   ensures  wholelines: forall(k, len(in(rows)), len(result0), len(content(result0[k])) >= 1)
-//@   requires filler != nil && buf != nil && stat.AvailableWidth >= 0 && stat.AvailableWidth <= 1<<31 && stat.RequestedWidth <= 1<<31
+//@   requires okfiller(filler) && buf != nil && stat.AvailableWidth >= 0 && stat.AvailableWidth <= 1<<31 && stat.RequestedWidth <= 1<<31
 //@   ensures  onerror: result1 != nil ==> dw(written(buf)) == 0 && result0 == rows
 //@   ensures  drained: result1 == nil ==> dw(written(buf)) == 0
 
